@@ -15,7 +15,7 @@ RULE = ("as C10, with faults: every script raises with probability 0.12 an excep
 def gen(rng, n):
     out = []
     for i in range(n):
-        g = G.GenRun(rng, is_async=(i % 2 == 1), faults=0.12, awaits=0.5)
+        g = G.GenRun(rng, is_async=(i % 2 == 1), faults=0.12, awaits=0.5, new_style=0.25)
         c = g.case()
         while not G.small_enough(c):
             c = g.case()
